@@ -125,6 +125,10 @@ Theorem C12_subducting_table_shape : forall ridges rows,
   rows = ridges /\ forall r i, (r < length ridges)%nat -> (i < nth r ridges 0)%nat -> (i < nth r rows 0)%nat.
 Proof. exact subducting_table_shape. Qed.
 
+(** wrong version: accepted iff the entry equals the library's MAJOR.MINOR as a whole (no prefix, no trailing characters) *)
+Theorem C12_version : forall file program, sig_ok (SigVersion file program) = true <-> file = program.
+Proof. exact version_accepted_iff. Qed.
+
 (** sections of slabs and faults: the segment table is rectangular *)
 Theorem C12_section_table_rectangular : forall (K M G : Type) (L : layout K M G),
   (forall e, In e (ly_sections L) ->
@@ -150,3 +154,4 @@ Print Assumptions C12_spreading_reads.
 Print Assumptions C12_spreading_shape.
 Print Assumptions C12_section_table_rectangular.
 Print Assumptions C12_subducting_table_shape.
+Print Assumptions C12_version.
